@@ -214,6 +214,25 @@ def ebr_strict_validate(trace, threads, timeout_s=3000):
     return {"accepted": False, "matched": int(m.group(2)), "lines": int(m.group(3)), "scenario": int(m.group(4)), "states": states, "strict_lines": strict_lines}
 
 
+def queue_strict_validate(trace, threads, timeout_s=3000):
+    """Step-relation validation of a queue trace (TraceQStrict.tla over MSQueue.tla)."""
+    meta = os.path.join(WORK, "tlc", "qst_%d_%s" % (os.getpid(), hashlib.md5(trace.encode()).hexdigest()[:8]))
+    shutil.rmtree(meta, ignore_errors=True)
+    os.makedirs(meta, exist_ok=True)
+    cmd = ["timeout", str(timeout_s), "tlc", "-workers", "1", "-metadir", meta, "-cleanup", "-noGenerateSpecTE",
+           "-config", "TraceQStrict_t%d.cfg" % threads, "TraceQStrict.tla"]
+    rc, out = sh(cmd, cwd=SPECS, env={"TRACE": trace, "JAVA_TOOL_OPTIONS": "-Xss1g -Xmx6g -Dtlc2.tool.queue.IStateQueue=StateDeque"})
+    shutil.rmtree(meta, ignore_errors=True)
+    m = STRICT_RE.search(out)
+    if not m:
+        raise ToolError("strict queue trace validation did not complete (rc=%d):\n%s" % (rc, out[-3000:]))
+    ms = re.search(r"(\d+) states generated, (\d+) distinct states found", out)
+    states = int(ms.group(2)) if ms else 0
+    if m.group(1) == "ACCEPTED":
+        return {"accepted": True, "lines": int(m.group(2)), "matched": int(m.group(2)), "scenario": None, "states": states}
+    return {"accepted": False, "matched": int(m.group(2)), "lines": int(m.group(3)), "scenario": int(m.group(4)), "states": states}
+
+
 def strict_validate(trace, threads, timeout_s=3000):
     """Step-relation validation (TraceCircStrict.tla): every line must be explained by an action of Circ.tla.
     Returns dict(accepted, lines, matched, scenario, states)."""
